@@ -18,6 +18,13 @@
                      VCOR  VDCMA::updateStrategyParameters (+ selection, counter) = C11Model.vd_update (1e-10),
                            step() == createSample + evaluate + select + update by hand (exact),
                            VDCMA::createSample on the normal draws read back = C11Model.vd_sample, D(I+vv^T)D = C11Model.vd_cov (1e-10),
+                     NM    SimplexDownhill::init / step replayed record by record from the implementation's own previous simplex
+                           = C11DirectModel.sd_init / sd_step with the table of the implementation's own evaluations as oracle, EXACTLY
+                           (simplex, reported solution, set of evaluated points); every branch, ties, dimension 1..15, f and 4*f,
+                     XCOR  CrossEntropyMethod::step = C11DirectModel.cem_sample on the draws read back (exactly), cem_select_update on the
+                           recorded samples and cem_step on the draws (1e-12, reported solution exactly, exception iff lambda <= mu);
+                           step() == sample + evaluate + select + counter++ + updateStrategyParameters + m_best by hand (exact),
+                     COR/SCOR also: C11DirectModel.cma_step / cmsa_step (offspring sampled by the model from the draws read back) = whole step (1e-10),
                      CH    cholesky_decomposition::update on exact inputs (small integers, dyadic) = exact rational spec
                            (throws iff alpha LL^T + beta vv^T is not positive definite) = C11Model.chol_update (None iff throws)
   spec monitors    every step of CMA, CMSA, ElitistCMA, VDCMA, CrossEntropyMethod, SimplexDownhill: sigma > 0 finite,
@@ -28,7 +35,11 @@
                          L'L'^T = (1-1/cC) LL^T + 1/(mu cC) sum step step^T (computed here), best = best-ranked offspring;
                    CCOR: sigma' > 0, factor diagonal > 0, lastStep = L lastZ, L'L'^T = alpha LL^T + beta v v^T with
                          (alpha, beta, v) of the branch recomputed here (success class, psucc', threshold, guard), no exception;
-                   VCOR: sigma' > 0, every D_i > 0, |v| > 0, |vn| = 1, mean' = weighted recombination of the mu best.
+                   VCOR: sigma' > 0, every D_i > 0, |v| > 0, |vn| = 1, mean' = weighted recombination of the mu best;
+                   NM:   value = objective at the reported point, vertex values = objective at the vertices, best vertex value and reported value
+                         never increase, reported solution is a best vertex, run on 4*f visits exactly the same simplices;
+                   XCOR: value = objective at the closest feasible reported point, mean' = average of the elite, variance' = mean squared
+                         deviation + noise >= noise, variance'_j = 0 only if noise = 0 and the elite agrees in coordinate j, same elite on 4*fitness.
 """
 import os, sys, re, math
 from fractions import Fraction
@@ -272,7 +283,8 @@ def parse_u(l):
            "mean": parts[4].split(","), "C": parts[5].split(","), "pc": parts[6].split(","), "ps": parts[7].split(","), "B": parts[8].split(","),
            "ws": parts[9].split(","), "off": [o.split(";") for o in parts[10].split()],
            "post": {"sigma": parts[11], "mean": parts[12].split(","), "C": parts[13].split(","), "pc": parts[14].split(","), "ps": parts[15].split(","),
-                    "best": parts[16], "bestpt": parts[17].split(",")}}
+                    "best": parts[16], "bestpt": parts[17].split(",")},
+           "eig": parts[18].split(",") if len(parts) > 18 else None}
     return rec
 
 def model_line_u(r):
@@ -431,7 +443,17 @@ def parse_su(l):
          "mean": parts[4].split(","), "L": parts[5].split(","), "off": [o.split(";") for o in parts[6].split()], "post": None}
     if parts[7] != "EXC":
         r["post"] = {"sigma": parts[7], "mean": parts[8].split(","), "L": parts[9].split(","), "best": parts[10], "bestpt": parts[11].split(",")}
+        if len(parts) > 13:
+            r["cSigma"] = parts[12]; r["draws"] = [d.split(";") for d in parts[13].split()]
     return r
+
+def model_line_sw(r):
+    tok = ["SW", str(r["n"]), str(r["lam"]), str(r["mu"]), r["cC"], r["cSigma"], r["sigma"]] + r["mean"] + r["L"]
+    for o in r["off"]:
+        tok += [o[0]] + o[1].split(",") + o[2].split(",") + [o[3]]
+    for d in r["draws"]:
+        tok += d[0].split(",") + [d[1]]
+    return " ".join(tok)
 
 def model_line_su(r):
     tok = ["S", str(r["n"]), str(r["lam"]), str(r["mu"]), r["cC"]] + r["L"]
@@ -782,7 +804,9 @@ def main():
         "harness/c11_es.cpp reads private/protected members of the optimizers through '#define private public' in that TU only (no source change)",
         "modelled not verified: symmetric eigendecomposition (its eigenvectors are an explicit input of the model), std::sort (proved: any sorted permutation of a tie-free list is the model's list), libm exp/sqrt/pow, the Mersenne twister",
         "the Cholesky rank-one update (remora cholesky_decomposition::update) used by CMSA and CMAChromosome is modelled (C11Model.chol_update), proved (over R) and compared on every SCOR/CCOR record and on exact CH inputs; its std::invalid_argument exit (update makes the matrix indefinite) = None of the model is reached by the CH inputs only (proved unreachable from CMSA / CMAChromosome under their constants); NaN inputs are outside the comparison (x <= 0 and gamma == 0 are modelled with the strict order only)",
-        "float instantiation of the model uses OCaml's IEEE double operations; comparison at 1e-10 relative to the largest entry of each vector/matrix"]
+        "float instantiation of the model uses OCaml's IEEE double operations; comparison at 1e-10 relative to the largest entry of each vector/matrix",
+        "NM / XCOR: the objective handed to the model is the table of the implementation's own evaluations (a point the model asks for that the implementation did not evaluate is a disagreement); std::sort on <= 16 elements is libstdc++'s insertion sort, which is stable like the model's sort, so tied values are compared too (SimplexDownhill up to dimension 15, cross-entropy populations up to 16; larger populations with ties inside the elite are counted and skipped)",
+        "XCOR / SCOR / COR whole steps: the standard normal draws are read back by replaying the generator (random::gauss(rng,0,1) returns the raw draw); normal_distribution(mean, stddev) = draw * stddev + mean (libstdc++)"]
     ck.assumptions = [
         "objectives from the generated family: sphere, ellipsoid, Rosenbrock, cigar, sqrt(sqrt(sphere)), box-restricted shifted sphere and linear function (feasibility by overriding isFeasible/closestFeasible; announced constraint handlers are refused by all six optimizers in checkFeatures)",
         "exactly order-preserving rescaling = multiplication by 4 (exact in binary floating point)",
@@ -790,7 +814,10 @@ def main():
         "sphere-budget runs are monitored up to the step that reaches the target (afterwards variances may underflow to 0, e.g. cross entropy at values ~1e-300)",
         "in the corner c1 + cMu = 1 of CMA (large populations, low dimension) positive definiteness is proved equivalent to full rank of evolution path + selected steps (hsig = 1); that rank condition itself is a property of the sample: monitored",
         "VDCMA: D stays positive iff every component of meanS exceeds -1 (proved); the code does not enforce it: monitored on every recorded update (vcor:D-not-positive)",
-        "theorems about the Cholesky-factor models are over the real numbers (exact square roots); floating-point rounding is covered by the 1e-10 comparison only"]
+        "theorems about the Cholesky-factor models are over the real numbers (exact square roots); floating-point rounding is covered by the 1e-10 comparison only",
+        "SimplexDownhill: value = objective at the reported point is proved under the hypothesis that some initial vertex has a value below the literal 1e100 of init(); without it the class reports (1e100, stale point) (theorem C11_simplex_literal_witness; observed on the real class by the NM probe with objective 1e150 (1 + |x|^2), printed as FINDING-CANDIDATE and stored in the evidence, not a registered known finding)",
+        "CrossEntropyMethod: variance_j = 0 iff noise = 0 and the elite agrees in coordinate j is exact over Q; in floating point the monitor allows a squared deviation below 1e-300 to underflow and a mean of identical values to differ from them by rounding",
+        "NaN objective values and dimension 0 are outside the SimplexDownhill / CrossEntropyMethod models (comparisons are modelled with the strict order only; step() divides by the dimension)"]
     ck.proofs()
     model = extract_model(PID, "C11Extract.v", "c11_driver.ml")
     exe, err = cxx_build("c11_es", [os.path.join(ROOT, "harness", "c11_es.cpp")] + repo_src(*SRC))
@@ -931,8 +958,13 @@ def main():
     rcm, mout, merr = run_lines(model, mlines, os.path.join(tmpd, "cor_model.txt")) if mlines else (0, [], "")
     if rcm != 0 or len(mout) != len(mlines):
         raise RuntimeError("model driver failed: rc=%s %s" % (rcm, merr[-500:]))
-    ndis = nmonc = 0; first_dis = None; corner = 0; ties = 0
-    for (cmd, st, r), mo in zip(recs, mout):
+    # the whole step on the model: C11DirectModel.cma_step samples the offspring itself from the recorded draws
+    wlines = ["UW" + l[1:] + " " + " ".join(r["eig"]) for l, (_, _, r) in zip(mlines, recs)]
+    rcw, wout, werr = run_lines(model, wlines, os.path.join(tmpd, "cor_step_model.txt")) if wlines else (0, [], "")
+    if rcw != 0 or len(wout) != len(wlines):
+        raise RuntimeError("model driver failed on UW lines: rc=%s %s" % (rcw, werr[-500:]))
+    ndis = nmonc = 0; first_dis = None; corner = 0; ties = 0; nwhole = 0
+    for (cmd, st, r), mo, wo in zip(recs, mout, wout):
         evals += 1
         n = r["n"]; mt = [fh(x) for x in mo.split()[1:]]
         if 1 - fh(r["consts"][1]) - fh(r["consts"][2]) <= 0: corner += 1
@@ -950,6 +982,13 @@ def main():
         for k, ln in (("sigma", 1), ("mean", n), ("C", n * n), ("pc", n), ("ps", n)):
             mod[k] = mt[p:p + ln]; p += ln
         diff = [k for k in impl if not vclose(impl[k], mod[k])]
+        wt = wo.split(); xi = wt.index("X"); di = wt.index("D"); wst = [fh(x) for x in wt[1:xi]]; p = 0
+        for k, ln in (("sigma", 1), ("mean", n), ("C", n * n), ("pc", n), ("ps", n)):
+            if not vclose(impl[k], wst[p:p + ln]): diff.append("cma_step:" + k)
+            p += ln
+        wx = [fh(x) for x in wt[xi + 1:di]]
+        if not all(vclose([fh(x) for x in o[1].split(",")], wx[i * n:(i + 1) * n]) for i, o in enumerate(r["off"])): diff.append("cma_step:sampled search points")
+        nwhole += 1
         if r["ties"]:
             ties += 1; diff = []      # std::sort leaves the order of tied offspring unspecified; the model's tie rule (stable) need not match
         if not r["same"]: diff.append("step()!=generate+evaluate+update")
@@ -962,7 +1001,8 @@ def main():
         ck.violation("correspondence", {"case_file": cf, "case": [cmd], "step": st, "differs_in": diff, "model_output": mod, "implementation_output": impl,
                                         "replay_cmd": "python3 tools/c11.py --replay %s" % cf, "broken": "correspondence C11Model.cma_update vs CMA::updatePopulation"},
                      "correspondence C11Model.cma_update vs CMA::updatePopulation no longer checks (%s differ on %d updates); the spec monitors pass on every explored input" % (",".join(diff), ndis), no_input=True)
-    ck.oblige("correspondence C11Model.cma_update (float) = CMA::updatePopulation at 1e-10 on %d updates of %d runs; step() = generate+evaluate+update exactly" % (len(recs), len(cors)),
+    ck.oblige("correspondence C11Model.cma_update (float) = CMA::updatePopulation, and C11DirectModel.cma_step (offspring sampled by the model from the recorded draws with Q diag(sqrt(max(eigenvalues,0)))) "
+              "= generateOffspring + evaluation + updatePopulation, at 1e-10 on %d updates of %d runs; step() = generate+evaluate+update exactly" % (len(recs), len(cors)),
               ndis == 0 and nmonc == 0, "" if not (ndis or nmonc) else "%d monitor failures, %d disagreements" % (nmonc, ndis))
     ck.notes["cor_updates"] = len(recs); ck.notes["cor_updates_in_corner_c1+cMu=1"] = corner; ck.notes["cor_updates_with_tied_fitness_skipped"] = ties
 
@@ -1020,13 +1060,40 @@ def main():
 
     fl = lambda xs: [fh(x) for x in xs]
     # CMSA
-    k, ndis, nm, ties, _ = tie("scor", scors, "SU", parse_su, model_line_su, monitor_su,
+    k, ndis, nm, ties, srecs = tie("scor", scors, "SU", parse_su, model_line_su, monitor_su,
                                lambda r: {"sigma": [fh(r["post"]["sigma"])], "mean": fl(r["post"]["mean"]), "L": fl(r["post"]["L"])},
                                lambda n: (("sigma", 1), ("mean", n), ("L", n * n)), "correspondence-cmsa", "C11Model.cmsa_update vs CMSA::updatePopulation")
     ck.oblige("correspondence C11Model.cmsa_update (float, incl. chol_update) = CMSA::updatePopulation at 1e-10 on %d updates of %d runs; step() = generate+evaluate+update exactly; "
               "monitors: sigma' > 0, factor lower triangular with positive diagonal, mean/sigma = averages over the mu best, L'L'^T = (1-1/cC)LL^T + 1/(mu cC) sum step step^T, rank-only" % (k, len(scors)),
               ndis == 0 and nm == 0, "" if not (ndis or nm) else "%d monitor failures, %d disagreements" % (nm, ndis))
     ck.notes["scor_updates"] = k; ck.notes["scor_updates_with_tied_fitness_skipped"] = ties
+    # the whole step on the model: C11DirectModel.cmsa_step samples the offspring itself (z and the step-size draw read back)
+    wrecs = [r for r in srecs if r["post"] is not None and not r.get("ties") and "draws" in r]
+    if wrecs and not ndis and not nm:
+        rcw, wout, werr = run_lines(model, [model_line_sw(r) for r in wrecs], os.path.join(tmpd, "scor_step_model.txt"))
+        if rcw != 0 or len(wout) != len(wrecs): raise RuntimeError("model driver failed on SW lines: rc=%s %s" % (rcw, werr[-500:]))
+        nw = 0; firstw = None
+        for r, wo in zip(wrecs, wout):
+            n = r["n"]; wt = wo.split(); diff = []
+            if wt[1:2] == ["EXC"]: diff = ["model: Cholesky update indefinite, implementation: no exception"]
+            else:
+                xi = wt.index("X"); di = wt.index("D"); wst = [fh(x) for x in wt[1:xi]]
+                impl = {"sigma": [fh(r["post"]["sigma"])], "mean": fl(r["post"]["mean"]), "L": fl(r["post"]["L"])}; p = 0
+                for kk, ln in (("sigma", 1), ("mean", n), ("L", n * n)):
+                    if not vclose(impl[kk], wst[p:p + ln]): diff.append("cmsa_step:" + kk)
+                    p += ln
+                wx = [fh(x) for x in wt[xi + 1:di]]
+                if not all(vclose([fh(x) for x in o[1].split(",")], wx[i * n:(i + 1) * n]) for i, o in enumerate(r["off"])): diff.append("cmsa_step:sampled search points")
+            if diff:
+                nw += 1
+                if firstw is None: firstw = (r, diff, wo)
+        if nw and not ck.violations:
+            r, diff, wo = firstw
+            cmdw = next(c for c in scors)
+            ck.violation("correspondence-cmsa-step", {"differs_in": diff, "record": r, "model_output": wo[:2000], "broken": "correspondence C11DirectModel.cmsa_step vs CMSA generateOffspring + evaluation + updatePopulation"},
+                         "correspondence C11DirectModel.cmsa_step vs CMSA::step no longer checks (%s differ on %d steps); the spec monitors pass on every explored input" % (",".join(diff), nw), no_input=True)
+        ck.oblige("correspondence C11DirectModel.cmsa_step (offspring sampled by the model from the draws read back: x = mean + sigma exp(cSigma g) L z) = CMSA generateOffspring + evaluation + updatePopulation at 1e-10 on %d steps" % len(wrecs), nw == 0)
+        ck.notes["scor_whole_steps"] = len(wrecs)
     # CMAChromosome (ElitistCMA)
     k, ndis, nm, ties, crecs = tie("ccor", ccors, "CU", parse_cu, model_line_cu, monitor_cu,
                                    lambda r: {"L": fl(r["post"]["L"]), "pc": fl(r["post"]["pc"]), "sigma": [fh(r["post"]["ss"][0])], "psucc": [fh(r["post"]["ss"][1])]},
